@@ -134,7 +134,8 @@ def eval_world(model: EvalModel):
     w.builtin_models[T.maxceil] = mx(True)       # contract proved in C08.limit_best.*
     w.builtin_models[T.minfloor] = mx(False)
     w.allow_native(Operator)
-    w.builtin_models[set] = lambda it, xs=(): set(it.iterate(xs))
+    from pyvc.interp import LocalSet
+    w.builtin_models[set] = lambda it, xs=(): LocalSet(it.iterate(xs))
     def hook(it, what, args):
         if what == ('contains',):
             cont, x = args
